@@ -328,5 +328,20 @@ def finish(ctx, level='proof', search=None):
     return code
 
 
+def corpus(prop):
+    """Regression corpus: inputs of past failures (tools/corpus/<prop>/*.json), run first by the checks that support it."""
+    res = []
+    d = os.path.join(VERIF, 'tools', 'corpus', prop)
+    if os.path.isdir(d):
+        for f in sorted(os.listdir(d)):
+            if f.endswith('.json'):
+                try:
+                    obj = json.load(open(os.path.join(d, f)))
+                    res.append(obj.get('input', obj))
+                except Exception:
+                    pass
+    return res
+
+
 def hexs(b):
     return bytes(b).hex()
